@@ -14,7 +14,7 @@ import (
 func init() { register("C13", runC13) }
 
 var c13Scripts = map[string][]string{
-	"ascii":  {"returns the total", "note: x > 0", "simple"},
+	"ascii":  {"returns the total", "note: x > 0", "simple", "* fast bullet", "*important* flag", "1. numbered", "a - b -- c"},
 	"two":    {"Größe des Feldes", "привет мир", "café déjà vu", "αβγ δ"},
 	"three":  {"返回总数", "合計を返す", "한국어 설명"},
 	"astral": {"emoji 😀 ok", "𝄞 clef", "🚀🚀"},
